@@ -290,7 +290,7 @@ void drv_hist_qf(int tier, unsigned long seed, const char *extra) {
   shard_t sh = shard_parse(extra); long x, nexec = sh.pure ? 4 : (tier ? 1500 : 240); int steps = sh.pure ? 10 : 36;
   static const int precs[] = {64, 128, 192, 320, 640};
   const api_fn *cands[200]; int nc = 0, fi;
-  for (fi = 0; fi < api_count; fi++) { const api_fn *f = &api_table[fi]; if (!skip_qf(f) && want(&sh, f->name) && !has(f->name, "swap") && !has(f->name, "canonicalize")) cands[nc++] = f; }
+  for (fi = 0; fi < api_count; fi++) { const api_fn *f = &api_table[fi]; if (!skip_qf(f) && want(&sh, f->name) && !has(f->name, "swap") && !has(f->name, "canonicalize") && !has(f->name, "_self_")) cands[nc++] = f; }
   for (x = 0; x < nexec; x++) {
     int i, s, sig = 0;
     if (!MINE(sh, x)) continue;
